@@ -270,6 +270,16 @@ def scn_metrics():
     with warnings.catch_warnings():
         warnings.simplefilter("ignore")
         ns["g"] = Grid(ds, coords=ns["coords"], periodic=False, boundary="extend", metrics=ns["mets"], autoparse_metadata=False)
+    # a second Grid: metrics for X and Y separately (every {X,Y} request is answered by a product), X also has an outer
+    # position for which no metric is registered (answers there are interpolated from a registered one)
+    ds2 = ds.drop_vars("area_c").assign_coords(xo=("xo", np.arange(nx + 1) * 1.0))
+    ns["ds2"] = ds2
+    with warnings.catch_warnings():
+        warnings.simplefilter("ignore")
+        ns["gp"] = Grid(ds2, coords={"X": {"center": "xc", "left": "xl", "outer": "xo"}, "Y": {"center": "yc", "left": "yl"}}, periodic=False,
+                        boundary="extend", metrics={("X",): ["dx_c", "dx_l"], ("Y",): ["dy_l", "dy_c"]}, autoparse_metadata=False)
+    ns["cll"] = xr.DataArray(((np.arange(ny * nx) * 7) % 11).astype(float).reshape(ny, nx) + 1, dims=["yl", "xl"], name="onfaces")
+    ns["cco"] = xr.DataArray(((np.arange(ny * (nx + 1)) * 3) % 5).astype(float).reshape(ny, nx + 1) + 2, dims=["yc", "xo"], name="onouter")
     ns["c"] = xr.DataArray(((np.arange(2 * ny * nx) * 5) % 13).astype(float).reshape(2, ny, nx), dims=["t", "yc", "xc"], name="foo")
     ns["cl"] = xr.DataArray(((np.arange(ny * nx) * 3) % 7).astype(float).reshape(ny, nx), dims=["yc", "xl"], name="bar")
     ns["mw"] = {"X": ("X",), "Y": ("Y",)}
@@ -293,6 +303,10 @@ def scn_metrics():
     ops["construct"] = lambda n: _construct_m(n)
     ops["cumsum_mw"] = lambda n: n["g"].cumsum(n["c"], "X", to="left", metric_weighted=n["mw"], boundary="fill")
     ops["bad_metric_axis"] = lambda n: n["g"].integrate(n["c"], "Z")
+    ops["gp_integrate_xy_faces"] = lambda n: n["gp"].integrate(n["cll"], n["axl"])
+    ops["gp_metric_xy_centre"] = lambda n: n["gp"].get_metric(n["c"], n["axl"])
+    ops["gp_integrate_x_outer"] = lambda n: n["gp"].integrate(n["cco"], "X")
+    ops["gp_metric_x_outer"] = lambda n: n["gp"].get_metric(n["cco"], n["axl"])
     return ns, ops
 
 
